@@ -62,7 +62,11 @@ func conv(parent *N, n *html.Node) {
 	case html.TextNode:
 		parent.Kids = append(parent.Kids, &N{Kind: "text", Raw: n.Data})
 	case html.DoctypeNode:
-		parent.Kids = append(parent.Kids, &N{Kind: "doctype", Name: strings.ToLower(n.Data)})
+		name := strings.ToLower(n.Data)
+		for _, a := range n.Attr { // public / system identifiers
+			name += fmt.Sprintf(" %s=%q", a.Key, a.Val)
+		}
+		parent.Kids = append(parent.Kids, &N{Kind: "doctype", Name: name})
 	case html.ElementNode:
 		e := &N{Kind: "el", Name: n.Data}
 		if n.Namespace != "" {
